@@ -46,6 +46,15 @@ type NIdent struct {
 	DC   int `json:"dc"`
 }
 
+// a templated policy link: builtin/service and builtin/node take a name, builtin/dns takes none
+type TPol struct {
+	Tmpl int   `json:"tmpl"` // 0 builtin/service, 1 builtin/node, 2 builtin/dns
+	Name int   `json:"name"`
+	DCs  []int `json:"dcs"`
+}
+
+var tmplNames = []string{"builtin/service", "builtin/node", "builtin/dns"}
+
 type RPol struct {
 	Entry
 	DCs []int `json:"dcs"`
@@ -56,6 +65,7 @@ type RRole struct {
 	Pols []int    `json:"pols"` // policy IDs
 	SIs  []SIdent `json:"sis"`
 	NIs  []NIdent `json:"nis"`
+	TPs  []TPol   `json:"tps"`
 }
 
 type RTok struct {
@@ -64,11 +74,12 @@ type RTok struct {
 	Roles []int    `json:"roles"`
 	SIs   []SIdent `json:"sis"`
 	NIs   []NIdent `json:"nis"`
+	TPs   []TPol   `json:"tps"`
 }
 
 // the synthetic policy the implementation generates for an identity (observed)
 type Synth struct {
-	Kind string `json:"kind"` // svc | node
+	Kind string `json:"kind"` // svc | node | tp0 | tp1 | tp2 (templated policy of template 0/1/2)
 	Name int    `json:"name"`
 	Entry
 }
@@ -92,6 +103,7 @@ type RCase struct {
 	Steps  []RStep  `json:"steps"`
 	Oracle string   `json:"oracle"`
 	Kinds  []string `json:"oracle_kinds,omitempty"`
+	Fails  []Fail   `json:"fails,omitempty"`
 	Sig    *Sig     `json:"sig,omitempty"`
 	Shrunk *RCase   `json:"shrunk,omitempty"`
 	IsRes  bool     `json:"resolver"`
@@ -158,6 +170,19 @@ func nidents(xs []NIdent) structs.ACLNodeIdentities {
 	return out
 }
 
+func tpols(xs []TPol) structs.ACLTemplatedPolicies {
+	var out structs.ACLTemplatedPolicies
+	for _, t := range xs {
+		base, _ := structs.GetACLTemplatedPolicyBase(tmplNames[t.Tmpl])
+		tp := &structs.ACLTemplatedPolicy{TemplateID: base.TemplateID, TemplateName: base.TemplateName, Datacenters: dcNames(t.DCs)}
+		if t.Tmpl != 2 {
+			tp.TemplateVariables = &structs.ACLTemplatedPolicyVariables{Name: svcNames[t.Name]}
+		}
+		out = append(out, tp)
+	}
+	return out
+}
+
 // buildWorld makes fresh objects for everything the case describes
 func buildWorld(c *RCase) *rbackend {
 	b := &rbackend{toks: map[string]*structs.ACLToken{}, roles: map[string]*structs.ACLRole{}, pols: map[string]*structs.ACLPolicy{}}
@@ -169,7 +194,7 @@ func buildWorld(c *RCase) *rbackend {
 		b.pols[sp.ID] = sp
 	}
 	for _, r := range c.Roles {
-		sr := &structs.ACLRole{ID: roleID(r.ID), Name: fmt.Sprintf("role-%d", r.ID), ServiceIdentities: sidents(r.SIs), NodeIdentities: nidents(r.NIs)}
+		sr := &structs.ACLRole{ID: roleID(r.ID), Name: fmt.Sprintf("role-%d", r.ID), ServiceIdentities: sidents(r.SIs), NodeIdentities: nidents(r.NIs), TemplatedPolicies: tpols(r.TPs)}
 		for _, p := range r.Pols {
 			sr.Policies = append(sr.Policies, structs.ACLRolePolicyLink{ID: polID(p)})
 		}
@@ -179,7 +204,7 @@ func buildWorld(c *RCase) *rbackend {
 	}
 	for _, t := range c.Toks {
 		st := &structs.ACLToken{AccessorID: fmt.Sprintf("%08x-2222-0000-0000-000000000000", t.ID), SecretID: secretOf(t.ID),
-			ServiceIdentities: sidents(t.SIs), NodeIdentities: nidents(t.NIs)}
+			ServiceIdentities: sidents(t.SIs), NodeIdentities: nidents(t.NIs), TemplatedPolicies: tpols(t.TPs)}
 		for _, p := range t.Pols {
 			st.Policies = append(st.Policies, structs.ACLTokenPolicyLink{ID: polID(p)})
 		}
@@ -224,10 +249,17 @@ func synthFor(c *RCase, kind string, name int, ids map[string]int) Synth {
 		}
 	}
 	var sp *structs.ACLPolicy
-	if kind == "svc" {
+	switch kind {
+	case "svc":
 		sp = (&structs.ACLServiceIdentity{ServiceName: svcNames[name]}).SyntheticPolicy(nil)
-	} else {
+	case "node":
 		sp = (&structs.ACLNodeIdentity{NodeName: svcNames[name], Datacenter: "dc1"}).SyntheticPolicy(nil)
+	default:
+		var err error
+		sp, err = tpols([]TPol{{Tmpl: int(kind[2] - '0'), Name: name}})[0].SyntheticPolicy(nil)
+		if err != nil {
+			panic(err)
+		}
 	}
 	pp, err := acl.NewPolicyFromSource(sp.Rules, &acl.Config{WarnOnDuplicateKey: true}, nil)
 	if err != nil {
@@ -269,6 +301,13 @@ func (c *RCase) referencePols(t *RTok, ids map[string]int) []Pol {
 			}
 		}
 	}
+	addTPs := func(tps []TPol) {
+		for _, t := range tps {
+			if inScope(t.DCs, c.DC) {
+				out = append(out, synthFor(c, fmt.Sprintf("tp%d", t.Tmpl), tpName(t), ids).Pol)
+			}
+		}
+	}
 	addIdents := func(sis []SIdent, nis []NIdent) {
 		for _, s := range sis {
 			if inScope(s.DCs, c.DC) {
@@ -285,6 +324,7 @@ func (c *RCase) referencePols(t *RTok, ids map[string]int) []Pol {
 		addPol(p)
 	}
 	addIdents(t.SIs, t.NIs)
+	addTPs(t.TPs)
 	for _, rid := range t.Roles {
 		for _, r := range c.Roles {
 			if r.ID == rid {
@@ -292,10 +332,18 @@ func (c *RCase) referencePols(t *RTok, ids map[string]int) []Pol {
 					addPol(p)
 				}
 				addIdents(r.SIs, r.NIs)
+				addTPs(r.TPs)
 			}
 		}
 	}
 	return out
+}
+
+func tpName(t TPol) int {
+	if t.Tmpl == 2 {
+		return 0
+	}
+	return t.Name
 }
 
 // ------------------------------------------------------------------ running a resolver case
@@ -340,6 +388,9 @@ func runR(c *RCase) {
 		for _, n := range t.NIs {
 			synthFor(c, "node", n.Name, ids)
 		}
+		for _, tp := range t.TPs {
+			synthFor(c, fmt.Sprintf("tp%d", tp.Tmpl), tpName(tp), ids)
+		}
 	}
 	for _, r := range c.Roles {
 		for _, s := range r.SIs {
@@ -347,6 +398,9 @@ func runR(c *RCase) {
 		}
 		for _, n := range r.NIs {
 			synthFor(c, "node", n.Name, ids)
+		}
+		for _, tp := range r.TPs {
+			synthFor(c, fmt.Sprintf("tp%d", tp.Tmpl), tpName(tp), ids)
 		}
 	}
 	sort.SliceStable(c.Synth, func(i, j int) bool {
@@ -356,8 +410,8 @@ func runR(c *RCase) {
 		return c.Synth[i].Name < c.Synth[j].Name
 	})
 
-	c.Oracle, c.Sig, c.Kinds = "", nil, nil
-	prio := map[string]int{"history-dependence": 1, "history-dependence-error": 2, "identity-semantics": 3, "service-identity-scope-narrowed": 3,
+	c.Oracle, c.Sig, c.Kinds, c.Fails = "", nil, nil, nil
+	prio := map[string]int{"history-dependence": 1, "history-dependence-error": 2, "identity-semantics": 3, "service-identity-scope-narrowed": 3, "templated-policy-scope-dropped": 3,
 		"role-order-dependence": 4, "backend-object-mutated": 5, "resolve-error": 6}
 	fail := func(kind string, si int, i int, got, want string) {
 		for _, k := range c.Kinds {
@@ -366,20 +420,22 @@ func runR(c *RCase) {
 			}
 		}
 		c.Kinds = append(c.Kinds, kind)
-		if c.Sig != nil && prio[c.Sig.Kind] <= prio[kind] {
-			return
-		}
 		s := &Sig{Kind: kind, Token: si}
 		tok := c.Toks[c.Steps[si].Tok]
+		var msg string
 		if i >= 0 {
 			s.Method, s.Name = describe(qs, i)
 			s.Got, s.Want = string(got[i]), string(want[i])
-			c.Oracle = fmt.Sprintf("%s: step %d (token %d: policies %v roles %v) %s(%q) = %s, expected %s", kind, si, tok.ID, tok.Pols, tok.Roles,
+			msg = fmt.Sprintf("%s: step %d (token %d: policies %v roles %v) %s(%q) = %s, expected %s", kind, si, tok.ID, tok.Pols, tok.Roles,
 				s.Method, s.Name, dname(s.Got), dname(s.Want))
 		} else {
-			c.Oracle = fmt.Sprintf("%s: after step %d (token %d: policies %v roles %v)", kind, si, tok.ID, tok.Pols, tok.Roles)
+			msg = fmt.Sprintf("%s: after step %d (token %d: policies %v roles %v)", kind, si, tok.ID, tok.Pols, tok.Roles)
 		}
-		c.Sig = s
+		c.Fails = append(c.Fails, Fail{*s, msg})
+		if c.Sig != nil && rankOf(prio, c.Sig.Kind) <= rankOf(prio, kind) {
+			return
+		}
+		c.Oracle, c.Sig = msg, s
 	}
 
 	b := buildWorld(c)
@@ -422,6 +478,8 @@ func runR(c *RCase) {
 			kind := "identity-semantics"
 			if c.unscopedSubsumes(st.Tok, qs, want) {
 				kind = "service-identity-scope-narrowed"
+			} else if c.templatedMergedAgrees(st.Tok, qs, want) {
+				kind = "templated-policy-scope-dropped"
 			}
 			fail(kind, si, d, st.Expect, want)
 		}
@@ -436,7 +494,11 @@ func runR(c *RCase) {
 			if err2 != nil {
 				fail("role-order-dependence", si, -1, "", "")
 			} else if d := firstDiff(observe1(res2.Authorizer, qs), st.Expect); d >= 0 {
-				fail("role-order-dependence", si, d, observe1(res2.Authorizer, qs), st.Expect)
+				kind := "role-order-dependence"
+				if c.templatedMergedAgrees(st.Tok, qs, want) {
+					kind = "templated-policy-scope-dropped"
+				}
+				fail(kind, si, d, observe1(res2.Authorizer, qs), st.Expect)
 			}
 			r2.Close()
 		}
@@ -490,6 +552,88 @@ func (c *RCase) unscopedSubsumes(ti int, qs []query, want string) bool {
 	defer r.Close()
 	res, err := r.ResolveToken(secretOf(t.ID))
 	return err == nil && observe1(res.Authorizer, qs) == want
+}
+
+// Does the token hold or inherit several templated policies with the same template and variables
+// but different Datacenters, and does the implementation follow the documented union (in BOTH
+// orders of the role links) once each such group is replaced by one templated policy on the token
+// itself whose scope is the union of the group's scopes (every datacenter if one of them is
+// unscoped)?  Then the deviation is exactly ACLTemplatedPolicies.Deduplicate dropping the scope of
+// the later duplicates.
+func (c *RCase) templatedMergedAgrees(ti int, qs []query, want string) bool {
+	d := cloneR(c)
+	t := &d.Toks[ti]
+	type key struct{ tmpl, name int }
+	var order []key
+	groups := map[key][]TPol{}
+	note := func(tps []TPol) {
+		for _, x := range tps {
+			k := key{x.Tmpl, tpName(x)}
+			if _, ok := groups[k]; !ok {
+				order = append(order, k)
+			}
+			groups[k] = append(groups[k], x)
+		}
+	}
+	note(t.TPs)
+	for _, rid := range t.Roles {
+		for _, r := range d.Roles {
+			if r.ID == rid {
+				note(r.TPs)
+			}
+		}
+	}
+	differs := false
+	var merged []TPol
+	for _, k := range order {
+		g := groups[k]
+		set := map[int]bool{}
+		unscoped := false
+		for _, x := range g {
+			if fmt.Sprint(x.DCs) != fmt.Sprint(g[0].DCs) {
+				differs = true
+			}
+			if len(x.DCs) == 0 {
+				unscoped = true
+			}
+			for _, dc := range x.DCs {
+				set[dc] = true
+			}
+		}
+		m := TPol{Tmpl: k.tmpl, Name: k.name}
+		if !unscoped {
+			for dc := range set {
+				m.DCs = append(m.DCs, dc)
+			}
+			sort.Ints(m.DCs)
+		}
+		merged = append(merged, m)
+	}
+	if !differs {
+		return false
+	}
+	t.TPs = merged
+	for _, rid := range t.Roles {
+		for i := range d.Roles {
+			if d.Roles[i].ID == rid {
+				d.Roles[i].TPs = nil
+			}
+		}
+	}
+	for _, rev := range []bool{false, true} {
+		e := cloneR(d)
+		if rev {
+			e.Toks[ti].Roles = reversed(e.Toks[ti].Roles)
+		}
+		r := newRResolver(e, buildWorld(e))
+		res, err := r.ResolveToken(secretOf(e.Toks[ti].ID))
+		ok := err == nil && observe1(res.Authorizer, qs) == want
+		r.Close()
+		if !ok {
+			return false
+		}
+	}
+	return true
 }
 
 func cloneR(c *RCase) *RCase {
@@ -550,6 +694,12 @@ func shrinkR(c *RCase) *RCase {
 					k--
 				}
 			}
+			for k := 0; k < len(cur.Toks[ti].TPs); k++ {
+				if try(func(d *RCase) bool { x := d.Toks[ti].TPs; d.Toks[ti].TPs = append(x[:k:k], x[k+1:]...); return true }) {
+					changed = true
+					k--
+				}
+			}
 			for k := 0; k < len(cur.Toks[ti].NIs); k++ {
 				if try(func(d *RCase) bool { x := d.Toks[ti].NIs; d.Toks[ti].NIs = append(x[:k:k], x[k+1:]...); return true }) {
 					changed = true
@@ -570,6 +720,12 @@ func shrinkR(c *RCase) *RCase {
 					k--
 				}
 			}
+			for k := 0; k < len(cur.Roles[ri].TPs); k++ {
+				if try(func(d *RCase) bool { x := d.Roles[ri].TPs; d.Roles[ri].TPs = append(x[:k:k], x[k+1:]...); return true }) {
+					changed = true
+					k--
+				}
+			}
 			for k := 0; k < len(cur.Roles[ri].NIs); k++ {
 				if try(func(d *RCase) bool { x := d.Roles[ri].NIs; d.Roles[ri].NIs = append(x[:k:k], x[k+1:]...); return true }) {
 					changed = true
@@ -585,6 +741,48 @@ func shrinkR(c *RCase) *RCase {
 				}
 			}
 		}
+	}
+	// drop tokens, roles and policies nothing refers to any more
+	d := cloneR(cur)
+	usedTok := map[int]int{}
+	var toks []RTok
+	for si := range d.Steps {
+		i := d.Steps[si].Tok
+		if _, ok := usedTok[i]; !ok {
+			usedTok[i] = len(toks)
+			toks = append(toks, d.Toks[i])
+		}
+		d.Steps[si].Tok = usedTok[i]
+	}
+	d.Toks = toks
+	usedRole, usedPol := map[int]bool{}, map[int]bool{}
+	for _, t := range d.Toks {
+		for _, r := range t.Roles {
+			usedRole[r] = true
+		}
+		for _, p := range t.Pols {
+			usedPol[p] = true
+		}
+	}
+	var roles []RRole
+	for _, r := range d.Roles {
+		if usedRole[r.ID] {
+			roles = append(roles, r)
+			for _, p := range r.Pols {
+				usedPol[p] = true
+			}
+		}
+	}
+	d.Roles = roles
+	var pols []RPol
+	for _, p := range d.Pols {
+		if usedPol[p.ID] {
+			pols = append(pols, p)
+		}
+	}
+	d.Pols = pols
+	if still(d) {
+		return d
 	}
 	still(cur)
 	return cur
@@ -622,6 +820,18 @@ func (g *gen) nis(max int) []NIdent {
 	return out
 }
 
+func (g *gen) tps(max int) []TPol {
+	var out []TPol
+	for i := g.r.Intn(max + 1); i > 0; i-- {
+		t := TPol{Tmpl: g.pick([]int{0, 0, 0, 1, 2}), DCs: g.dcs()}
+		if t.Tmpl != 2 {
+			t.Name = g.pick([]int{0, 0, 1, 3})
+		}
+		out = append(out, t)
+	}
+	return out
+}
+
 func (g *gen) subset(n, max int) []int {
 	k := g.r.Intn(max + 1)
 	if k > n {
@@ -643,7 +853,11 @@ func (g *gen) resolverCase() *RCase {
 	}
 	nr := 2 + g.r.Intn(3)
 	for i := 0; i < nr; i++ {
-		c.Roles = append(c.Roles, RRole{ID: i + 1, Pols: g.subset(np, 2), SIs: g.sis(2), NIs: g.nis(1)})
+		r := RRole{ID: i + 1, Pols: g.subset(np, 2), SIs: g.sis(2), NIs: g.nis(1)}
+		if g.r.Intn(2) == 0 {
+			r.TPs = g.tps(2)
+		}
+		c.Roles = append(c.Roles, r)
 	}
 	nt := 2 + g.r.Intn(3)
 	for i := 0; i < nt; i++ {
@@ -653,6 +867,9 @@ func (g *gen) resolverCase() *RCase {
 		}
 		if g.r.Intn(4) == 0 {
 			t.NIs = g.nis(1)
+		}
+		if g.r.Intn(4) == 0 {
+			t.TPs = g.tps(2)
 		}
 		c.Toks = append(c.Toks, t)
 	}
@@ -668,7 +885,7 @@ func (g *gen) resolverCase() *RCase {
 			}
 		}
 		c.Toks[1].Roles = []int{t.Roles[g.r.Intn(len(t.Roles))]}
-		c.Toks[1].Pols, c.Toks[1].SIs, c.Toks[1].NIs = nil, nil, nil
+		c.Toks[1].Pols, c.Toks[1].SIs, c.Toks[1].NIs, c.Toks[1].TPs = nil, nil, nil, nil
 	}
 	ns := 3 + g.r.Intn(4)
 	for i := 0; i < ns; i++ {
